@@ -167,6 +167,12 @@ SELF_INITS = {"operand": ("int", "{n} + 1"), "right-operand": ("int", "1 + {n}")
 for _dk, _dt in SELF_DECLS.items():
     for _ik, (_ty, _ie) in SELF_INITS.items():
         FAULTS[f"self-reference:{_dk}:{_ik}"] = _dt.format(n="srn", t=_ty, e=_ie.format(n="srn")).split("\n")
+# a name that is only a PARAMETER of another member of the same class (earlier / later method, constructor) is unknown in this method
+for _k, _o in (("earlier-method", 'fn other(self, sibp: int) -> int {\n\t\treturn sibp\n\t}'), ("constructor", None), ("later-method", 'fn other(self, sibp: int) -> int {\n\t\treturn sibp\n\t}')):
+    _user = 'fn user(self) -> int {\n\t\treturn sibp + 1\n\t}'
+    _ctor = "constructor(self, sibp: int) {}" if _k == "constructor" else "constructor(self) {}"
+    _members = [_ctor] + ([_o, _user] if _k == "earlier-method" else [_user, _o] if _k == "later-method" else [_user])
+    FAULTS[f"unknown-name-parameter-of-sibling-{_k}"] = ("class Cs {\n" + "\n".join("\t" + m for m in _members) + "\n}").split("\n")
 FAULTS["use-before-declaration"] = ["ub1 = later1 + 1", "later1 = 1"]
 FAULTS["use-before-declaration-typed"] = ["ub2: int = later2", "later2: int = 1"]
 FAULTS["use-before-declaration-in-closure"] = ["ub3 = fn() -> int {", "\treturn later3", "}", "later3 = 1"]
